@@ -5,12 +5,12 @@ cd /verif || exit 2
 n=0
 for p in "$@"; do
   (
-    w=/tmp/mut/${p}b
+    w=/tmp/mut/${p}${SUF:-b}
     a=$(cd /tmp && PYTHONPATH=$w/src timeout 600 /venv/bin/python $w/_out/demo.py 2>&1 | tail -n 1 | cut -c1-70)
     b=$(cd /tmp && PYTHONPATH=/repo/src timeout 600 /venv/bin/python $w/_out/demo.py 2>&1 | tail -n 1 | cut -c1-30)
-    VERIF_REPO_SRC=$w/src VERIF_OUT=/verif/out/scratch/${p}b ./check $p > /tmp/mut/${p}b.check.log 2>&1
+    VERIF_REPO_SRC=$w/src VERIF_OUT=/verif/out/scratch/${p}${SUF:-b} ./check $p > /tmp/mut/${p}${SUF:-b}.check.log 2>&1
     rc=$?
-    echo "== $p demo:[$a]/[$b] check exit=$rc $(grep -c '^VIOLATION' /tmp/mut/${p}b.check.log) violations; $(grep -m1 '^VIOLATION' /tmp/mut/${p}b.check.log | cut -c1-260)"
+    echo "== $p demo:[$a]/[$b] check exit=$rc $(grep -c '^VIOLATION' /tmp/mut/${p}${SUF:-b}.check.log) violations; $(grep -m1 '^VIOLATION' /tmp/mut/${p}${SUF:-b}.check.log | cut -c1-260)"
   ) &
   n=$((n+1))
   if [ $((n % 3)) -eq 0 ]; then wait; fi
